@@ -47,6 +47,21 @@ func vhPkcs8Foreign() {
 	if vChoose("innerOid", 2) == 1 {
 		ec.NamedCurveOID = oid
 	}
+	// the optional public key of RFC 5915, in each point format of SEC1 2.3.3:
+	// absent, uncompressed (what gopki and Go write), compressed and hybrid
+	// (`openssl ... -conv_form compressed|hybrid`); the reader derives the
+	// point from the scalar, so all of them are the same key
+	bl := (curve.Params().BitSize + 7) / 8
+	xb, yb := x.FillBytes(make([]byte, bl)), y.FillBytes(make([]byte, bl))
+	odd := yb[bl-1] & 1
+	switch vChoose("pubForm", vParam("PUBFORMS", 4)) {
+	case 1:
+		ec.PublicKey = asn1.BitString{Bytes: vCatBytes([]byte{4}, xb, yb), BitLength: 8 * (1 + 2*bl)}
+	case 2:
+		ec.PublicKey = asn1.BitString{Bytes: vCatBytes([]byte{2 + odd}, xb), BitLength: 8 * (1 + bl)}
+	case 3:
+		ec.PublicKey = asn1.BitString{Bytes: vCatBytes([]byte{6 + odd}, xb, yb), BitLength: 8 * (1 + 2*bl)}
+	}
 	inner, err := asn1.Marshal(ec)
 	vAssert(err == nil, "encoding the foreign ECPrivateKey failed")
 	der, err := asn1.Marshal(pkcs8{Version: 0, Algo: pkix.AlgorithmIdentifier{Algorithm: oidEcPublicKey, Parameters: asn1.RawValue{FullBytes: oidBytes}}, PrivateKey: inner})
@@ -64,7 +79,19 @@ func vhPkcs8Foreign() {
 	vReach("parsed")
 	vAssert(k2.Curve.Params().Name == curve.Params().Name, "curve of an imported key changed")
 	vAssert(k2.D.Cmp(d) == 0, "private scalar of an imported key changed")
+	vAssert(k2.X != nil && k2.Y != nil, "an imported key has no public point")
+	if k2.X == nil || k2.Y == nil {
+		return
+	}
 	vAssert(k2.X.Cmp(x) == 0 && k2.Y.Cmp(y) == 0, "public point of an imported key is not the point of its private scalar")
+}
+
+func vCatBytes(parts ...[]byte) []byte {
+	var out []byte
+	for _, p := range parts {
+		out = append(out, p...)
+	}
+	return out
 }
 
 // vhPemInvalidKey: C17, last clause. A PEM file whose PRIVATE KEY block does
